@@ -565,3 +565,50 @@ Definition check_def (doc : tsdoc) (d : tsdef) : list cerr :=
 
 (** check_type_system_document *)
 Definition check_doc (doc : tsdoc) : list cerr := flat_map (check_def doc) doc.
+
+(** * semantics/src/schema_extension_resolver: does resolve_schema_extensions fail?
+    (ExtensionList::set_original: a second original of the same kind and name; into_original_and_extensions:
+    an extension whose kind+name has no original).  Only the verdict is modelled here; the merge itself is
+    property C11. *)
+Inductive tkind := KSchemaK | KScalarK | KObjectK | KInterfaceK | KUnionK | KEnumK | KInputK.
+Definition tkind_eqb (a b : tkind) : bool :=
+  match a, b with
+  | KSchemaK, KSchemaK | KScalarK, KScalarK | KObjectK, KObjectK | KInterfaceK, KInterfaceK
+  | KUnionK, KUnionK | KEnumK, KEnumK | KInputK, KInputK => true
+  | _, _ => false
+  end.
+Definition typedef_kind (t : typedef) : tkind :=
+  match t with
+  | TDScalar _ _ _ _ _ => KScalarK | TDObject _ _ _ _ _ _ _ => KObjectK | TDInterface _ _ _ _ _ _ _ => KInterfaceK
+  | TDUnion _ _ _ _ _ _ => KUnionK | TDEnum _ _ _ _ _ _ => KEnumK | TDInput _ _ _ _ _ _ => KInputK
+  end.
+Definition typeext_kind (t : typeext) : tkind :=
+  match t with
+  | TEScalar _ _ _ => KScalarK | TEObject _ _ _ _ _ => KObjectK | TEInterface _ _ _ _ _ => KInterfaceK
+  | TEUnion _ _ _ _ => KUnionK | TEEnum _ _ _ _ => KEnumK | TEInput _ _ _ _ => KInputK
+  end.
+(** (is_extension, kind, name); directive definitions are not keyed *)
+Definition item_key (d : tsdef) : option (bool * tkind * str) :=
+  match d with
+  | TSSchema _ => Some (false, KSchemaK, [])
+  | TSSchemaExt _ => Some (true, KSchemaK, [])
+  | TSType t => Some (false, typedef_kind t, tname t)
+  | TSTypeExt t => Some (true, typeext_kind t, iname (typeext_name t))
+  | TSDirective _ => None
+  end.
+Definition same_key (k : tkind) (n : str) (d : tsdef) : bool :=
+  match item_key d with
+  | Some (false, k', n') => tkind_eqb k k' && str_eqb n n'
+  | _ => false
+  end.
+Fixpoint has_dup_original (doc : tsdoc) : bool :=
+  match doc with
+  | [] => false
+  | d :: r =>
+      (match item_key d with Some (false, k, n) => existsb (same_key k n) r | _ => false end) || has_dup_original r
+  end.
+Definition has_orphan_extension (doc : tsdoc) : bool :=
+  existsb (fun d => match item_key d with
+                    | Some (true, k, n) => negb (existsb (same_key k n) doc)
+                    | _ => false end) doc.
+Definition resolve_fails (doc : tsdoc) : bool := has_dup_original doc || has_orphan_extension doc.
